@@ -10,9 +10,14 @@ namespace Gfa.Lvl
 structure Codec (V : Type) where
   decode : List Char → Option V
   encode : V → Option (List Char)
+  /-- the decoder used at level 0 (`unsafe_decode`): may accept more than the grammar -/
+  unsafeDecode : List Char → Option V := decode
+  /-- the Python value of the datatype is itself a `str` (Z): it is never converted, only validated -/
+  stringLike : Bool := false
 
-/-- what is written reads back -/
-def Codec.Lawful {V : Type} (c : Codec V) : Prop := ∀ v s, c.encode v = some s → c.decode s = some v
+/-- what is written reads back, and the level-0 decoder agrees with the safe one on valid text -/
+def Codec.Lawful {V : Type} (c : Codec V) : Prop :=
+  (∀ v s, c.encode v = some s → c.decode s = some v) ∧ (∀ s v, c.decode s = some v → c.unsafeDecode s = some v)
 
 /-- what a line stores for a field: the text as given (not yet parsed), or a decoded value -/
 inductive Cell (V : Type) where
@@ -38,10 +43,12 @@ def writeF (c : Codec V) (k : Nat) : Cell V → Option (List Char)
   | .raw s => if k ≥ 2 then (if (c.decode s).isSome then some s else none) else some s
   | .val v => c.encode v
 
-/-- `get`: returns the value and the (possibly updated) cell -/
-def getF (c : Codec V) (k : Nat) : Cell V → Option (V × Cell V)
-  | .raw s => (c.decode s).map fun v => (v, .val v)
-  | .val v => if k ≥ 3 then (if (c.encode v).isSome then some (v, .val v) else none) else some (v, .val v)
+/-- `get`: the (possibly updated) cell, or `none` when an error is raised -/
+def getF (c : Codec V) (k : Nat) : Cell V → Option (Cell V)
+  | .raw s =>
+    if c.stringLike then (if k ≥ 3 ∧ (c.decode s).isNone then none else some (.raw s))
+    else ((if k ≥ 1 then c.decode s else c.unsafeDecode s).map .val)
+  | .val v => if k ≥ 3 ∧ (c.encode v).isNone then none else some (.val v)
 
 /-- `set` / attribute assignment -/
 def setF (c : Codec V) (k : Nat) (x : Input V) : Option (Cell V) :=
@@ -60,8 +67,13 @@ def intCodec : Codec Int where
 def strCodec : Codec (List Char) where
   decode s := match Field.decode 'Z' s with | some (.str t) => some t | _ => none
   encode t := Field.encode (.str t)
+  stringLike := true
+/-- `binascii.unhexlify` also reads lower-case digits -/
+def unhexAny (s : List Char) : Option (List Nat) :=
+  Field.unhex (s.map fun c => if 'a' ≤ c && c ≤ 'f' then Char.ofNat (c.toNat - 32) else c)
 def bytesCodec : Codec (List Nat) where
   decode s := match Field.decode 'H' s with | some (.bytes b) => some b | _ => none
   encode b := Field.encode (.bytes b)
+  unsafeDecode s := if s.isEmpty then none else unhexAny s
 
 end Gfa.Lvl
